@@ -267,11 +267,27 @@ def main(replay=None):
                     wmis += 1
                     ck.violation("save %s: file size differs from the stream model" % nm, "%s(%d).save(\"wf_out.%s\") with %s left %d bytes, the capacity-limited stream model says %s" % (KN[kind], n, FM[fmt], fault, size, m.split()[1]),
                                  dict(kind="write", wcases=[c], meta=[[kind, fmt, n, k, total]], wmodel=[wmodel[wcases.index(c)]], impl=[i]))
-        # Matlab (.mat through matio/HDF5): not a stream writer; observed separately, one case
-        rc, mo_, err = core.run_harness(hb, ["c18 4 1 3 40 -1"], wd, tag="wm")
-        if mo_ and mo_[0].split()[0] == "0":
-            ck.violation("Matrix::save(\"x.mat\") onto /dev/full returns normally", "Matrix(40,41).save(\"wf_out.mat\") with the file name linked to /dev/full returned normally: MatlabIO ignores the return codes of Mat_VarWrite/Mat_Close",
-                         dict(kind="write", wcases=["c18 4 1 3 40 -1"], meta=[[1, 3, 40, -1, 0]], wmodel=["c18 5 1 0 1"], impl=mo_))
+        # MATLAB (.mat through matio/HDF5): not a stream writer.  Faults are reported by the HDF5 error callback of MatlabIO
+        # (MatioError).  Separate harness run (an exception thrown through HDF5 frames may upset later HDF5 calls); sizes not compared.
+        # (/dev/full through a symlink is no fault for this writer: it removes the name and creates a regular file.)
+        if rp is None:
+            mp = ["c18 4 %d 3 %d -3" % (kind, n) for kind in (0, 1, 2, 3) for n in (3, 40)]
+            rc, mo_, err = core.run_harness(hb, mp, wd, tag="wm0")
+            mcases = []
+            for c, o in zip(mp, mo_):
+                t = o.split()
+                if t[0] != "0" or int(t[1]) <= 0: continue
+                total = int(t[1]); w = c.split()
+                for k in (0, 100, total // 2, total - 1):
+                    mcases.append(("c18 4 %s 3 %s %d" % (w[2], w[4], k), total, k))
+            rc, mi, err = core.run_harness(hb, [c for c, _, _ in mcases], wd, tag="wm")
+            for (c, total, k), i in zip(mcases, mi):
+                wdist["*.mat"] = wdist.get("*.mat", 0) + 1; wn += 1
+                if i.startswith("CRASH") or i.split()[0] == "0":
+                    wmis += 1
+                    ck.violation("save .mat under a size limit: %s" % ("crash" if i.startswith("CRASH") else "returns normally"),
+                                 "`%s` (kind fmt=mat n k): file-size limit %d of %d bytes -> `%s`; required: an exception" % (c, k, total, i),
+                                 dict(kind="write", wcases=[c], meta=[[int(c.split()[2]), 3, int(c.split()[4]), k, total]], wmodel=["c18 5 1 %d %d" % (k, total)], impl=[i]))
 
     res = ck.proof_result
     ck.cov.update(evaluations=len(acases) + sum(ldist.values()) + wn + 1, distinct_nontrivial=len(set(acases)) + sum(ldist.values()) + wn,
